@@ -847,4 +847,831 @@ example : seqOf (compoundInit partialState 1).1 1 .fieldSchema
     = [.user ['y'] true, .gen "month".toList "%02i".toList false, .gen "day".toList "%02i".toList false] := by
   decide
 
+/-! # histories: well-formedness, the returned class, the frame theorem along chains -/
+
+/-! ## well-formedness is kept by every step -/
+
+/-- a reference value names an existing list object -/
+def RefOK (σ : State) : Val → Prop
+  | .list r | .tuple r | .anonDict r => r < σ.heap.length
+  | _ => True
+
+theorem WF_iff_refOK (σ : State) :
+    WF σ ↔ (∀ c x, x ∈ σ.mroOf c → x < σ.classes.length) ∧
+      ∀ c a v, assoc (σ.ownOf c) a = some v → RefOK σ v := by
+  constructor
+  · intro h
+    refine ⟨h.mro_lt, fun c a v hv => ?_⟩
+    cases v <;> simp only [RefOK]
+    case list r => exact h.ref_lt c a r (Or.inl hv)
+    case tuple r => exact h.ref_lt c a r (Or.inr (Or.inl hv))
+    case anonDict r => exact h.ref_lt c a r (Or.inr (Or.inr hv))
+  · intro ⟨h1, h2⟩
+    refine ⟨h1, fun c a r hr => ?_⟩
+    rcases hr with hr | hr | hr <;> exact h2 c a _ hr
+
+theorem length_updCls (σ : State) (c : ClassId) (f : Cls → Cls) :
+    (updCls σ c f).classes.length = σ.classes.length := by
+  unfold updCls; split <;> simp
+
+theorem ownOf_updCls (σ : State) (c x : ClassId) (f : Cls → Cls) (hf : ∀ cl, (f cl).own = cl.own) :
+    (updCls σ c f).ownOf x = σ.ownOf x := by
+  simp only [State.ownOf, classes_updCls]
+  by_cases e : x = c
+  · simp only [e, if_true]; cases σ.classes[c]? <;> simp [hf]
+  · simp [e]
+
+theorem kindOf_updCls (σ : State) (c x : ClassId) (f : Cls → Cls) (hf : ∀ cl, (f cl).kind = cl.kind) :
+    (updCls σ c f).kindOf x = σ.kindOf x := by
+  simp only [State.kindOf, classes_updCls]
+  by_cases e : x = c
+  · simp only [e, if_true]; cases σ.classes[c]? <;> simp [hf]
+  · simp [e]
+
+theorem RefOK_mono {σ τ : State} (h : σ.heap.length ≤ τ.heap.length) (v : Val) (hv : RefOK σ v) : RefOK τ v := by
+  cases v <;> first | exact Nat.lt_of_lt_of_le hv h | trivial
+
+/-- rewriting a class without touching its MRO or its `__dict__` (flags, properties frame) -/
+theorem WF_updCls (σ : State) (hwf : WF σ) (c : ClassId) (f : Cls → Cls)
+    (hm : ∀ cl, (f cl).mro = cl.mro) (ho : ∀ cl, (f cl).own = cl.own) : WF (updCls σ c f) := by
+  rw [WF_iff_refOK] at hwf ⊢
+  refine ⟨fun c' x hx => ?_, fun c' a v hv => ?_⟩
+  · rw [mroOf_updCls σ c c' f hm] at hx
+    rw [length_updCls]; exact hwf.1 c' x hx
+  · rw [ownOf_updCls σ c c' f ho] at hv
+    exact RefOK_mono (by rw [heap_updCls]; exact Nat.le_refl _) v (hwf.2 c' a v hv)
+
+theorem assoc_ownOf_setOwn (σ : State) (c x : ClassId) (a a' : Attr) (v : Val) :
+    assoc ((setOwn σ c a v).ownOf x) a' = assoc (σ.ownOf x) a' ∨
+      assoc ((setOwn σ c a v).ownOf x) a' = some v := by
+  by_cases e : x = c
+  · subst e
+    cases hcl : σ.classes[x]? with
+    | none => left; simp [setOwn, updCls, hcl]
+    | some cl =>
+      unfold setOwn
+      rw [ownOf_updCls_self σ x _ cl hcl]
+      simp only [assoc_assocSet]
+      by_cases ea : a = a'
+      · right; simp [ea]
+      · left; simp [ea, State.ownOf, hcl]
+  · left; rw [ownOf_setOwn_ne σ c x a v e]
+
+theorem heap_setOwn (σ : State) (c : ClassId) (a : Attr) (v : Val) : (setOwn σ c a v).heap = σ.heap :=
+  heap_updCls σ c _
+
+theorem length_setOwn (σ : State) (c : ClassId) (a : Attr) (v : Val) :
+    (setOwn σ c a v).classes.length = σ.classes.length := length_updCls σ c _
+
+/-- `setattr(cls, a, v)` with `v` an atom or a reference to an existing list object -/
+theorem WF_setOwn (σ : State) (hwf : WF σ) (c : ClassId) (a : Attr) (v : Val) (hv : RefOK σ v) :
+    WF (setOwn σ c a v) := by
+  rw [WF_iff_refOK] at hwf ⊢
+  refine ⟨fun c' x hx => ?_, fun c' a' v' hv' => ?_⟩
+  · rw [mroOf_setOwn] at hx
+    rw [length_setOwn]; exact hwf.1 c' x hx
+  · have hh : σ.heap.length ≤ (setOwn σ c a v).heap.length := by rw [heap_setOwn]; exact Nat.le_refl _
+    rcases assoc_ownOf_setOwn σ c c' a a' v with h | h
+    · rw [h] at hv'; exact RefOK_mono hh v' (hwf.2 c' a' v' hv')
+    · rw [h] at hv'; simp only [Option.some.injEq] at hv'; subst hv'; exact RefOK_mono hh _ hv
+
+theorem WF_alloc (σ : State) (hwf : WF σ) (xs : List Item) : WF (alloc σ xs).1 := by
+  rw [WF_iff_refOK] at hwf ⊢
+  exact ⟨hwf.1, fun c a v hv => RefOK_mono (by simp [alloc]) v (hwf.2 c a v hv)⟩
+
+theorem getElem?_append_singleton' {α : Type} (l : List α) (a : α) (c : Nat) :
+    (l ++ [a])[c]? = if c = l.length then some a else l[c]? := by
+  rcases Nat.lt_trichotomy c l.length with h | h | h
+  · rw [List.getElem?_append_left h, if_neg (Nat.ne_of_lt h)]
+  · subst h; simp
+  · rw [if_neg (Nat.ne_of_gt h), List.getElem?_eq_none (by simp; omega), List.getElem?_eq_none (by omega)]
+
+theorem mroOf_clone (σ : State) (p x : ClassId) :
+    (clone σ p).1.mroOf x = if x = σ.classes.length then σ.classes.length :: σ.mroOf p else σ.mroOf x := by
+  simp only [State.mroOf, clone, getElem?_append_singleton']
+  by_cases e : x = σ.classes.length <;> simp [e]
+
+theorem ownOf_clone (σ : State) (p x : ClassId) :
+    (clone σ p).1.ownOf x = if x = σ.classes.length then [] else σ.ownOf x := by
+  simp only [State.ownOf, clone, getElem?_append_singleton']
+  by_cases e : x = σ.classes.length <;> simp [e]
+
+theorem kindOf_clone (σ : State) (p x : ClassId) :
+    (clone σ p).1.kindOf x = if x = σ.classes.length then σ.kindOf p else σ.kindOf x := by
+  simp only [State.kindOf, clone, getElem?_append_singleton']
+  by_cases e : x = σ.classes.length <;> simp [e]
+
+theorem length_clone (σ : State) (p : ClassId) : (clone σ p).1.classes.length = σ.classes.length + 1 := by
+  simp [clone]
+
+/-- `class_cloner`: a fresh subclass with an empty `__dict__` -/
+theorem WF_clone (σ : State) (hwf : WF σ) (p : ClassId) : WF (clone σ p).1 := by
+  rw [WF_iff_refOK] at hwf ⊢
+  refine ⟨fun c x hx => ?_, fun c a v hv => ?_⟩
+  · rw [mroOf_clone] at hx
+    rw [length_clone]
+    split at hx
+    · rcases List.mem_cons.1 hx with rfl | h
+      · exact Nat.lt_succ_self _
+      · exact Nat.lt_succ_of_lt (hwf.1 p x h)
+    · exact Nat.lt_succ_of_lt (hwf.1 c x hx)
+  · rw [ownOf_clone] at hv
+    split at hv
+    · simp [assoc] at hv
+    · exact RefOK_mono (Nat.le_refl _) v (hwf.2 c a v hv)
+
+theorem RefOK_alloc (σ : State) (xs : List Item) :
+    RefOK (alloc σ xs).1 (.list (alloc σ xs).2) ∧ RefOK (alloc σ xs).1 (.tuple (alloc σ xs).2) ∧
+      RefOK (alloc σ xs).1 (.anonDict (alloc σ xs).2) := by
+  simp [RefOK, alloc]
+
+theorem RefOK_atomOf (σ : State) (v : KwVal) : RefOK σ (atomOf v) := by
+  cases v <;> simp [atomOf, RefOK]
+
+theorem WF_usingBody (n : ClassId) :
+    ∀ (kw : List (KwName × KwVal)) (σ1 σ2 : State), WF σ1 → usingBody σ1 n kw = some σ2 → WF σ2
+  | [], σ1, σ2, hwf, h => by simp only [usingBody, Option.some.injEq] at h; exact h ▸ hwf
+  | (.bogus, _) :: _, _, _, _, h => by simp [usingBody] at h
+  | (.properties, v) :: rest, σ1, σ2, hwf, h => by
+    cases v <;> simp only [usingBody, reduceCtorEq] at h
+    refine WF_usingBody n rest _ σ2 ?_ h
+    exact WF_updCls σ1 hwf n _ (fun _ => rfl) (fun _ => rfl)
+  | (.attr a, v) :: rest, σ1, σ2, hwf, h => by
+    simp only [usingBody] at h
+    split at h
+    · cases v <;> simp only [] at h
+      case labels ls =>
+        exact WF_usingBody n rest _ σ2 (WF_setOwn _ (WF_alloc σ1 hwf _) n a _ (RefOK_alloc σ1 _).1) h
+      case members ms =>
+        exact WF_usingBody n rest _ σ2 (WF_setOwn _ (WF_alloc σ1 hwf _) n a _ (RefOK_alloc σ1 _).1) h
+      all_goals exact WF_usingBody n rest _ σ2 (WF_setOwn σ1 hwf n a _ (RefOK_atomOf σ1 _)) h
+    · simp at h
+
+theorem WF_compoundInit (σ : State) (hwf : WF σ) (n : ClassId) : WF (compoundInit σ n).1 := by
+  unfold compoundInit
+  simp only []
+  split
+  · exact hwf
+  · split
+    · exact WF_updCls σ hwf n _ (fun _ => rfl) (fun _ => rfl)
+    · exact WF_updCls _ (WF_setOwn _ (WF_alloc σ hwf _) n _ _ (RefOK_alloc σ _).1) n _
+        (fun _ => rfl) (fun _ => rfl)
+
+/-- **Well-formedness along histories.**  Every constructor call and every instantiation —
+    successful or raising, lazily preparing or not — leaves the class store well formed. -/
+theorem WF_step (σ : State) (hwf : WF σ) (s : Step) : WF (step σ s).1 := by
+  cases s with
+  | named c name =>
+    simp only [step]; split
+    · exact WF_setOwn _ (WF_clone σ hwf c) _ _ _ (by cases name <;> simp [RefOK])
+    · exact hwf
+  | «using» c kw =>
+    simp only [step]; split
+    · split
+      · rename_i σ2 h; exact WF_usingBody _ kw _ σ2 (WF_clone σ hwf c) h
+      · exact hwf
+    · exact hwf
+  | validatedBy descent c vs =>
+    simp only [step]; split
+    · split
+      · exact hwf
+      · exact WF_setOwn _ (WF_alloc _ (WF_clone σ hwf c) _) _ _ _ (RefOK_alloc _ _).1
+    · exact hwf
+  | includingValidators descent c vs position =>
+    simp only [step]; split
+    · split
+      · exact hwf
+      · exact WF_setOwn _ (WF_alloc _ (WF_clone σ hwf c) _) _ _ _ (RefOK_alloc _ _).1
+    · exact hwf
+  | withProperties c pairs =>
+    simp only [step]; split
+    · exact WF_updCls _ (WF_clone σ hwf c) _ _ (fun _ => rfl) (fun _ => rfl)
+    · exact hwf
+  | «of» c members =>
+    simp only [step]; split
+    · split
+      · split
+        · exact hwf
+        · exact WF_setOwn _ (WF_clone σ hwf c) _ _ _ (by simp [RefOK])
+        · split
+          · exact hwf
+          · exact WF_setOwn _ (WF_alloc _ (WF_clone σ hwf c) _) _ _ _ (RefOK_alloc _ _).2.2
+      · split
+        · exact hwf
+        · exact WF_setOwn _ (WF_alloc _ (WF_clone σ hwf c) _) _ _ _ (RefOK_alloc _ _).2.1
+      all_goals exact hwf
+    · exact hwf
+  | valued c values =>
+    simp only [step]; split
+    · split
+      · exact hwf
+      · exact WF_setOwn _ (WF_alloc _ (WF_clone σ hwf c) _) _ _ _ (RefOK_alloc _ _).2.1
+    · exact hwf
+  | «to» c path =>
+    simp only [step]; split
+    · split
+      · exact hwf
+      · exact WF_setOwn _ (WF_clone σ hwf c) _ _ _ (by simp [RefOK])
+    · exact hwf
+  | inst c kw =>
+    simp only [step]; split
+    · split
+      · split
+        · split
+          · exact hwf
+          · rename_i σ2 h
+            have h2 := WF_usingBody _ _ _ σ2 (WF_clone σ hwf c) h
+            have h3 := WF_compoundInit σ2 h2 (clone σ c).2
+            by_cases e1 : ((compoundInit σ2 (clone σ c).2).snd != Res.ok) = true
+            · simp only [e1, if_true]; exact hwf
+            · simp only [e1]
+              by_cases e2 : (List.filter (fun p => p.fst == KwName.bogus) kw).isEmpty = true
+              · simp only [e2, if_true]; exact h3
+              · simp only [e2]; exact hwf
+        · have h3 := WF_compoundInit σ hwf c
+          cases hp : σ.isPrepared c with
+          | true => simp only [if_true]; split <;> (try split) <;> exact hwf
+          | false =>
+            simp only [Bool.false_eq_true, if_false]
+            split
+            · exact hwf
+            · split <;> exact h3
+      · split
+        · exact hwf
+        · split
+          · exact hwf
+          · split <;> split <;> exact hwf
+    · exact hwf
+
+theorem WF_run (ss : List Step) (σ : State) (hwf : WF σ) : WF (run σ ss).1 := by
+  induction ss generalizing σ with
+  | nil => exact hwf
+  | cons s ss ih => simp only [run]; exact ih _ (WF_step σ hwf s)
+
+theorem WF_initState (kind : Kind) (defaults : List (Attr × Val))
+    (hd : ∀ a v, assoc defaults a = some v → RefOK (initState kind defaults) v) :
+    WF (initState kind defaults) := by
+  rw [WF_iff_refOK]
+  refine ⟨fun c x hx => ?_, fun c a v hv => ?_⟩
+  · cases c with
+    | zero => simp [initState, State.mroOf] at hx; simp [initState, hx]
+    | succ n => simp [initState, State.mroOf] at hx
+  · cases c with
+    | zero => exact hd a v (by simpa [initState, State.ownOf] using hv)
+    | succ n => simp [initState, State.ownOf, assoc] at hv
+
+/-! ## the shape of the class table along a step: nothing, or one new direct subclass -/
+
+/-- same classes with the same MROs and kinds (own attributes, flags, heap may differ) -/
+structure SameShape (σ τ : State) : Prop where
+  len : τ.classes.length = σ.classes.length
+  mro : ∀ x, τ.mroOf x = σ.mroOf x
+  kind : ∀ x, τ.kindOf x = σ.kindOf x
+
+/-- `τ` has exactly one class more than `σ`: class number `σ.classes.length`, a direct subclass
+    of `p` of the same kind; every other class has the MRO and kind it had -/
+structure Derived (σ τ : State) (p : ClassId) : Prop where
+  len : τ.classes.length = σ.classes.length + 1
+  mro : ∀ x, τ.mroOf x = if x = σ.classes.length then σ.classes.length :: σ.mroOf p else σ.mroOf x
+  kind : ∀ x, τ.kindOf x = if x = σ.classes.length then σ.kindOf p else σ.kindOf x
+
+theorem SameShape.refl (σ : State) : SameShape σ σ := ⟨rfl, fun _ => rfl, fun _ => rfl⟩
+
+theorem SameShape.trans {a b c : State} (h1 : SameShape a b) (h2 : SameShape b c) : SameShape a c :=
+  ⟨h2.len.trans h1.len, fun x => (h2.mro x).trans (h1.mro x), fun x => (h2.kind x).trans (h1.kind x)⟩
+
+theorem Derived.then {σ τ τ' : State} {p : ClassId} (h1 : Derived σ τ p) (h2 : SameShape τ τ') :
+    Derived σ τ' p :=
+  ⟨h2.len.trans h1.len, fun x => (h2.mro x).trans (h1.mro x), fun x => (h2.kind x).trans (h1.kind x)⟩
+
+theorem Derived_clone (σ : State) (p : ClassId) : Derived σ (clone σ p).1 p :=
+  ⟨length_clone σ p, mroOf_clone σ p, kindOf_clone σ p⟩
+
+theorem SameShape_updCls (σ : State) (c : ClassId) (f : Cls → Cls)
+    (hm : ∀ cl, (f cl).mro = cl.mro) (hk : ∀ cl, (f cl).kind = cl.kind) : SameShape σ (updCls σ c f) :=
+  ⟨length_updCls σ c f, fun x => mroOf_updCls σ c x f hm, fun x => kindOf_updCls σ c x f hk⟩
+
+theorem SameShape_setOwn (σ : State) (c : ClassId) (a : Attr) (v : Val) : SameShape σ (setOwn σ c a v) :=
+  SameShape_updCls σ c _ (fun _ => rfl) (fun _ => rfl)
+
+theorem SameShape_alloc (σ : State) (xs : List Item) : SameShape σ (alloc σ xs).1 :=
+  ⟨rfl, fun _ => rfl, fun _ => rfl⟩
+
+theorem SameShape_usingBody (n : ClassId) :
+    ∀ (kw : List (KwName × KwVal)) (σ1 σ2 : State), usingBody σ1 n kw = some σ2 → SameShape σ1 σ2
+  | [], σ1, σ2, h => by simp only [usingBody, Option.some.injEq] at h; exact h ▸ SameShape.refl σ1
+  | (.bogus, _) :: _, _, _, h => by simp [usingBody] at h
+  | (.properties, v) :: rest, σ1, σ2, h => by
+    cases v <;> simp only [usingBody, reduceCtorEq] at h
+    have h2 := SameShape_usingBody n rest _ σ2 h
+    refine SameShape.trans ?_ h2
+    exact SameShape_updCls σ1 n _ (fun _ => rfl) (fun _ => rfl)
+  | (.attr a, v) :: rest, σ1, σ2, h => by
+    simp only [usingBody] at h
+    split at h
+    · cases v <;> simp only [] at h
+      case labels ls =>
+        exact ((SameShape_alloc σ1 _).trans (SameShape_setOwn _ n a _)).trans (SameShape_usingBody n rest _ σ2 h)
+      case members ms =>
+        exact ((SameShape_alloc σ1 _).trans (SameShape_setOwn _ n a _)).trans (SameShape_usingBody n rest _ σ2 h)
+      all_goals exact (SameShape_setOwn σ1 n a _).trans (SameShape_usingBody n rest _ σ2 h)
+    · simp at h
+
+theorem SameShape_compoundInit (σ : State) (n : ClassId) : SameShape σ (compoundInit σ n).1 := by
+  unfold compoundInit
+  simp only []
+  split
+  · exact SameShape.refl σ
+  · split
+    · exact SameShape_updCls σ n _ (fun _ => rfl) (fun _ => rfl)
+    · exact ((SameShape_alloc σ _).trans (SameShape_setOwn _ n _ _)).trans
+        (SameShape_updCls _ n _ (fun _ => rfl) (fun _ => rfl))
+
+/-- the class a constructor is called on -/
+def stepTarget : Step → ClassId
+  | .named c _ | .using c _ | .validatedBy _ c _ | .includingValidators _ c _ _ | .withProperties c _
+  | .of c _ | .valued c _ | .to c _ | .inst c _ => c
+
+def isCtor : Step → Bool
+  | .inst .. => false
+  | _ => true
+
+/-- **The returned class is new.**  A schema constructor either raises and leaves the class
+    store exactly as it was, or returns: then the store has exactly one class more — its id is
+    the old number of classes, so it is none of the old classes —, a direct subclass of the class
+    the constructor was called on (MRO = itself followed by the original's MRO) of the same
+    kind, and no old class changed its MRO. -/
+theorem ctor_new_or_unchanged (σ : State) (s : Step) (hs : isCtor s = true) :
+    ((step σ s).1 = σ ∧ (step σ s).2 ≠ .ok) ∨
+    (stepTarget s < σ.classes.length ∧ Derived σ (step σ s).1 (stepTarget s) ∧ (step σ s).2 = .ok) := by
+  cases s with
+  | named c name =>
+    simp only [step, stepTarget]; split
+    · rename_i hc; right
+      exact ⟨hc, (Derived_clone σ c).then (SameShape_setOwn _ _ _ _), rfl⟩
+    · left; exact ⟨rfl, by simp⟩
+  | «using» c kw =>
+    simp only [step, stepTarget]; split
+    · rename_i hc
+      split
+      · rename_i σ2 h; right
+        exact ⟨hc, (Derived_clone σ c).then (SameShape_usingBody _ kw _ σ2 h), rfl⟩
+      · left; exact ⟨rfl, by simp⟩
+    · left; exact ⟨rfl, by simp⟩
+  | validatedBy descent c vs =>
+    simp only [step, stepTarget]; split
+    · rename_i hc
+      split
+      · left; exact ⟨rfl, by simp⟩
+      · right
+        exact ⟨hc, (Derived_clone σ c).then ((SameShape_alloc _ _).trans (SameShape_setOwn _ _ _ _)), rfl⟩
+    · left; exact ⟨rfl, by simp⟩
+  | includingValidators descent c vs position =>
+    simp only [step, stepTarget]; split
+    · rename_i hc
+      split
+      · left; exact ⟨rfl, by simp⟩
+      · right
+        exact ⟨hc, (Derived_clone σ c).then ((SameShape_alloc _ _).trans (SameShape_setOwn _ _ _ _)), rfl⟩
+    · left; exact ⟨rfl, by simp⟩
+  | withProperties c pairs =>
+    simp only [step, stepTarget]; split
+    · rename_i hc; right
+      exact ⟨hc, (Derived_clone σ c).then (SameShape_updCls _ _ _ (fun _ => rfl) (fun _ => rfl)), rfl⟩
+    · left; exact ⟨rfl, by simp⟩
+  | «of» c members =>
+    simp only [step, stepTarget]; split
+    · rename_i hc
+      have hc' : c < σ.classes.length := by
+        simp only [Bool.and_eq_true, decide_eq_true_eq] at hc; exact hc.1
+      split
+      · split
+        · left; exact ⟨rfl, by simp⟩
+        · right; exact ⟨hc', (Derived_clone σ c).then (SameShape_setOwn _ _ _ _), rfl⟩
+        · split
+          · left; exact ⟨rfl, by simp⟩
+          · right
+            exact ⟨hc', (Derived_clone σ c).then ((SameShape_alloc _ _).trans (SameShape_setOwn _ _ _ _)), rfl⟩
+      · split
+        · left; exact ⟨rfl, by simp⟩
+        · right
+          exact ⟨hc', (Derived_clone σ c).then ((SameShape_alloc _ _).trans (SameShape_setOwn _ _ _ _)), rfl⟩
+      all_goals (left; exact ⟨rfl, by simp⟩)
+    · left; exact ⟨rfl, by simp⟩
+  | valued c values =>
+    simp only [step, stepTarget]; split
+    · rename_i hc
+      split
+      · left; exact ⟨rfl, by simp⟩
+      · right
+        exact ⟨hc, (Derived_clone σ c).then ((SameShape_alloc _ _).trans (SameShape_setOwn _ _ _ _)), rfl⟩
+    · left; exact ⟨rfl, by simp⟩
+  | «to» c path =>
+    simp only [step, stepTarget]; split
+    · rename_i hc
+      split
+      · left; exact ⟨rfl, by simp⟩
+      · right; exact ⟨hc, (Derived_clone σ c).then (SameShape_setOwn _ _ _ _), rfl⟩
+    · left; exact ⟨rfl, by simp⟩
+  | inst c kw => simp [isCtor] at hs
+
+/-- an instantiation leaves the class table as it is, or (compound types) fills in the class it is
+    called on, or (compound types, with keyword overrides) derives one new subclass on the fly -/
+theorem inst_shape (σ : State) (c : ClassId) (kw : List (KwName × KwVal)) :
+    SameShape σ (step σ (.inst c kw)).1 ∨
+    (c < σ.classes.length ∧ Derived σ (step σ (.inst c kw)).1 c) := by
+  simp only [step]; split
+  · rename_i hc
+    split
+    · split
+      · split
+        · left; exact SameShape.refl σ
+        · rename_i σ2 h
+          have h2 := (Derived_clone σ c).then (SameShape_usingBody _ _ _ σ2 h)
+          have h3 := h2.then (SameShape_compoundInit σ2 (clone σ c).2)
+          by_cases e1 : ((compoundInit σ2 (clone σ c).2).snd != Res.ok) = true
+          · simp only [e1, if_true]; left; exact SameShape.refl σ
+          · simp only [e1]
+            by_cases e2 : (List.filter (fun p => p.fst == KwName.bogus) kw).isEmpty = true
+            · simp only [e2, if_true]; right; exact ⟨hc, h3⟩
+            · simp only [e2]; left; exact SameShape.refl σ
+      · left
+        have h3 := SameShape_compoundInit σ c
+        cases hp : σ.isPrepared c with
+        | true => simp only [if_true]; split <;> (try split) <;> exact SameShape.refl σ
+        | false =>
+          simp only [Bool.false_eq_true, if_false]
+          split
+          · exact SameShape.refl σ
+          · split <;> exact h3
+    · left
+      split
+      · exact SameShape.refl σ
+      · split
+        · exact SameShape.refl σ
+        · split <;> split <;> exact SameShape.refl σ
+  · left; exact SameShape.refl σ
+
+/-- every step: the class table keeps its shape or gains one direct subclass of the target -/
+theorem step_shape (σ : State) (s : Step) :
+    SameShape σ (step σ s).1 ∨ (stepTarget s < σ.classes.length ∧ Derived σ (step σ s).1 (stepTarget s)) := by
+  by_cases hs : isCtor s = true
+  · rcases ctor_new_or_unchanged σ s hs with ⟨e, _⟩ | ⟨h1, h2, _⟩
+    · left; rw [e]; exact SameShape.refl σ
+    · right; exact ⟨h1, h2⟩
+  · cases s <;> simp [isCtor] at hs
+    exact inst_shape σ _ _
+
+/-! ## the frame theorem along histories -/
+
+/-- what `cls.properties` reads of a class record -/
+def propsView (cl : Cls) : List (Str × Int) × Bool := (cl.props, cl.propsReset)
+
+theorem propsWalk_congr (σ τ : State)
+    (h : ∀ x : Nat, (τ.classes[x]?).map propsView = (σ.classes[x]?).map propsView)
+    (l : List ClassId) (acc : List (Str × Int)) : propsWalk τ l acc = propsWalk σ l acc := by
+  induction l generalizing acc with
+  | nil => rfl
+  | cons x r ih =>
+    have hx := h x
+    simp only [propsWalk]
+    cases hs : σ.classes[x]? with
+    | none =>
+      cases ht : τ.classes[x]? with
+      | none => rfl
+      | some cl' => simp [hs, ht] at hx
+    | some cl =>
+      cases ht : τ.classes[x]? with
+      | none => simp [hs, ht] at hx
+      | some cl' =>
+        simp only [hs, ht, Option.map_some, Option.some.injEq, propsView, Prod.mk.injEq] at hx
+        simp only [hx.1, hx.2]
+        split
+        · rfl
+        · exact ih _
+
+theorem propsView_updCls (σ : State) (c : ClassId) (f : Cls → Cls) (hf : ∀ cl, propsView (f cl) = propsView cl)
+    (x : ClassId) : ((updCls σ c f).classes[x]?).map propsView = (σ.classes[x]?).map propsView := by
+  rw [classes_updCls]
+  split
+  · cases σ.classes[x]? <;> simp [hf]
+  · rfl
+
+/-- preparing a compound class touches no `properties` frame -/
+theorem propsOf_compoundInit (σ : State) (p c : ClassId) :
+    propsOf (compoundInit σ p).1 c = propsOf σ c := by
+  unfold propsOf
+  rw [(SameShape_compoundInit σ p).mro c]
+  apply propsWalk_congr
+  intro x
+  rw [compoundInit_fst]
+  split
+  · rfl
+  · split
+    · exact propsView_updCls σ p setPrepared (fun _ => rfl) x
+    · rw [propsView_updCls _ p setPrepared (fun _ => rfl) x]
+      unfold setOwn
+      exact propsView_updCls _ p (fun cl => { cl with own := assocSet cl.own .fieldSchema (.list σ.heap.length) })
+        (fun _ => rfl) x
+
+/-- the guard of one step for observed class `c`: the step is not the lazy preparation of a
+    class in `c`'s MRO (of `c` itself or of an ancestor) — KF-C06-a -/
+def stepGuard (σ : State) (c : ClassId) (s : Step) : Bool :=
+  match lazyPrep σ s with
+  | none => true
+  | some p => !(σ.mroOf c).contains p
+
+/-- the guard along a history, judged in the state each step runs in -/
+def histGuard (c : ClassId) : State → List Step → Bool
+  | _, [] => true
+  | σ, s :: ss => stepGuard σ c s && histGuard c (step σ s).1 ss
+
+theorem length_step_le (σ : State) (s : Step) : σ.classes.length ≤ (step σ s).1.classes.length := by
+  rcases step_shape σ s with h | ⟨_, h⟩
+  · rw [h.len]; exact Nat.le_refl _
+  · rw [h.len]; exact Nat.le_succ _
+
+theorem mroOf_step (σ : State) (s : Step) (c : ClassId) (hc : c < σ.classes.length) :
+    (step σ s).1.mroOf c = σ.mroOf c := by
+  rcases step_shape σ s with h | ⟨_, h⟩
+  · exact h.mro c
+  · rw [h.mro c, if_neg (Nat.ne_of_lt hc)]
+
+/-- one step, lazy preparation of an unrelated class included -/
+theorem frame_step (σ : State) (hwf : WF σ) (s : Step) (c : ClassId) (hc : c < σ.classes.length)
+    (hg : stepGuard σ c s = true) :
+    (∀ a, deepLookup (step σ s).1 c a = deepLookup σ c a) ∧ propsOf (step σ s).1 c = propsOf σ c := by
+  unfold stepGuard at hg
+  cases hl : lazyPrep σ s with
+  | none => exact frame σ hwf s hl c hc
+  | some p =>
+    simp only [hl, Bool.not_eq_true', List.contains_eq_mem, decide_eq_false_iff_not] at hg
+    refine ⟨(frame_lazy σ hwf s p hl c).2 hg, ?_⟩
+    rcases step_lazy_state σ s p hl with e | ⟨_, e⟩ <;> rw [e]
+    exact propsOf_compoundInit σ p c
+
+/-- **Frame, all histories.**  Along every chain of constructor calls and instantiations from a
+    well-formed store, a class that existed at the start has at the end exactly the observable
+    attributes (lists followed to their contents) and properties it had — provided no step of the
+    chain lazily prepares that class or one of its ancestors (KF-C06-a). -/
+theorem frame_history : ∀ (ss : List Step) (σ : State), WF σ → ∀ c, c < σ.classes.length →
+    histGuard c σ ss = true →
+    (∀ a, deepLookup (run σ ss).1 c a = deepLookup σ c a) ∧ propsOf (run σ ss).1 c = propsOf σ c
+  | [], _, _, _, _, _ => ⟨fun _ => rfl, rfl⟩
+  | s :: ss, σ, hwf, c, hc, hg => by
+    simp only [histGuard, Bool.and_eq_true] at hg
+    obtain ⟨h1, h2⟩ := frame_step σ hwf s c hc hg.1
+    obtain ⟨i1, i2⟩ := frame_history ss (step σ s).1 (WF_step σ hwf s) c
+      (Nat.lt_of_lt_of_le hc (length_step_le σ s)) hg.2
+    simp only [run]
+    exact ⟨fun a => (i1 a).trans (h1 a), i2.trans h2⟩
+
+/-- … as the runner's observation -/
+theorem frame_history_observe (ss : List Step) (σ : State) (hwf : WF σ) (c : ClassId)
+    (hc : c < σ.classes.length) (hg : histGuard c σ ss = true) :
+    observe (run σ ss).1 c = observe σ c := by
+  obtain ⟨h1, h2⟩ := frame_history ss σ hwf c hc hg
+  simp only [observe, h2]
+  congr 1
+  exact List.map_congr_left (fun a _ => h1 a)
+
+/-- the MRO of an existing class never changes (so the guard speaks about the same ancestors
+    throughout), and the store only grows -/
+theorem mroOf_run : ∀ (ss : List Step) (σ : State) (c : ClassId), c < σ.classes.length →
+    (run σ ss).1.mroOf c = σ.mroOf c ∧ σ.classes.length ≤ (run σ ss).1.classes.length
+  | [], _, _, _ => ⟨rfl, Nat.le_refl _⟩
+  | s :: ss, σ, c, hc => by
+    obtain ⟨h1, h2⟩ := mroOf_run ss (step σ s).1 c (Nat.lt_of_lt_of_le hc (length_step_le σ s))
+    simp only [run]
+    exact ⟨h1.trans (mroOf_step σ s c hc), Nat.le_trans (length_step_le σ s) h2⟩
+
+/-- a history without any lazy preparation satisfies the guard for every class -/
+theorem histGuard_of_no_lazy (c : ClassId) : ∀ (ss : List Step) (σ : State),
+    (∀ (pre : List Step) (s : Step) (post : List Step), ss = pre ++ s :: post →
+      lazyPrep (run σ pre).1 s = none) → histGuard c σ ss = true
+  | [], _, _ => rfl
+  | s :: ss, σ, h => by
+    simp only [histGuard, Bool.and_eq_true]
+    refine ⟨?_, histGuard_of_no_lazy c ss _ (fun pre s' post e => ?_)⟩
+    · have := h [] s ss rfl
+      simp only [run] at this
+      simp [stepGuard, this]
+    · have := h (s :: pre) s' post (by rw [e]; rfl)
+      simpa only [run] using this
+
+/-! ## what every history preserves, lazy preparation included (KF-C06-a, the other half) -/
+
+/-- single inheritance: every MRO starts with the class itself, and the MRO of every class in
+    it is a suffix of it -/
+structure ChainWF (σ : State) : Prop where
+  head : ∀ c, c < σ.classes.length → ∃ tl, σ.mroOf c = c :: tl
+  suffix : ∀ c x, x ∈ σ.mroOf c → ∃ pre, σ.mroOf c = pre ++ σ.mroOf x ∧ x ∉ pre
+
+theorem ChainWF_sameShape {σ τ : State} (h : ChainWF σ) (hs : SameShape σ τ) : ChainWF τ := by
+  refine ⟨fun c hc => ?_, fun c x hx => ?_⟩
+  · rw [hs.mro c]; exact h.head c (hs.len ▸ hc)
+  · rw [hs.mro c] at hx ⊢; rw [hs.mro x]; exact h.suffix c x hx
+
+theorem ChainWF_derived {σ τ : State} {p : ClassId} (h : ChainWF σ) (hwf : WF σ) (hd : Derived σ τ p) :
+    ChainWF τ := by
+  have hold : ∀ x, x < σ.classes.length → τ.mroOf x = σ.mroOf x := fun x hx => by
+    rw [hd.mro x, if_neg (Nat.ne_of_lt hx)]
+  refine ⟨fun c hc => ?_, fun c x hx => ?_⟩
+  · rw [hd.mro c]
+    split
+    · rename_i e; exact ⟨σ.mroOf p, by rw [e]⟩
+    · rename_i e
+      rw [hd.len] at hc
+      exact h.head c (Nat.lt_of_le_of_ne (Nat.le_of_lt_succ hc) e)
+  · rw [hd.mro c] at hx ⊢
+    split at hx
+    · rename_i e
+      rw [if_pos e]
+      rcases List.mem_cons.1 hx with rfl | hx'
+      · exact ⟨[], by rw [hd.mro, if_pos rfl]; rfl, by simp⟩
+      · have hlt := hwf.mro_lt p x hx'
+        obtain ⟨pre, h1, h2⟩ := h.suffix p x hx'
+        refine ⟨σ.classes.length :: pre, by rw [hold x hlt, h1]; rfl, ?_⟩
+        simp only [List.mem_cons, not_or]
+        exact ⟨Nat.ne_of_lt hlt, h2⟩
+    · rename_i e
+      rw [if_neg e, hold x (hwf.mro_lt c x hx)]
+      exact h.suffix c x hx
+
+theorem ChainWF_step (σ : State) (hwf : WF σ) (h : ChainWF σ) (s : Step) : ChainWF (step σ s).1 := by
+  rcases step_shape σ s with hs | ⟨_, hd⟩
+  · exact ChainWF_sameShape h hs
+  · exact ChainWF_derived h hwf hd
+
+theorem ChainWF_initState (kind : Kind) (defaults : List (Attr × Val)) : ChainWF (initState kind defaults) := by
+  refine ⟨fun c hc => ?_, fun c x hx => ?_⟩
+  · have : c = 0 := by simp [initState] at hc; exact hc
+    subst this; exact ⟨[], rfl⟩
+  · cases c with
+    | zero =>
+      have : x = 0 := by simpa [initState, State.mroOf] using hx
+      subst this; exact ⟨[], rfl, by simp⟩
+    | succ n => simp [initState, State.mroOf] at hx
+
+/-- the sequence an observed value denotes -/
+def dseq : DVal → List Item
+  | .list xs | .tuple xs => xs
+  | _ => []
+
+theorem seqOf_eq_dseq (σ : State) (c : ClassId) (a : Attr) : seqOf σ c a = dseq (deepLookup σ c a) := by
+  unfold seqOf deepLookup
+  cases h : σ.lookup c a with
+  | none => rfl
+  | some v => cases v <;> rfl
+
+theorem optionalOf_eq (σ : State) (c : ClassId) :
+    optionalOf σ c = match deepLookup σ c .optional with | .atom (.bool b) => b | _ => false := by
+  unfold optionalOf deepLookup
+  cases h : σ.lookup c .optional with
+  | none => rfl
+  | some v => cases v <;> rfl
+
+/-- one step, any step: everything but `field_schema` is kept, and of `field_schema` the
+    user-supplied members -/
+theorem frame_step_any (σ : State) (hwf : WF σ) (hch : ChainWF σ) (s : Step) (c : ClassId)
+    (hc : c < σ.classes.length) :
+    (∀ a, a ≠ .fieldSchema → deepLookup (step σ s).1 c a = deepLookup σ c a) ∧
+    propsOf (step σ s).1 c = propsOf σ c ∧
+    userFields (seqOf (step σ s).1 c .fieldSchema) = userFields (seqOf σ c .fieldSchema) := by
+  cases hl : lazyPrep σ s with
+  | none =>
+    obtain ⟨h1, h2⟩ := frame σ hwf s hl c hc
+    exact ⟨fun a _ => h1 a, h2, by rw [seqOf_eq_dseq, h1, ← seqOf_eq_dseq]⟩
+  | some p =>
+    refine ⟨(frame_lazy σ hwf s p hl c).1, ?_, ?_⟩
+    · rcases step_lazy_state σ s p hl with e | ⟨_, e⟩ <;> rw [e]
+      exact propsOf_compoundInit σ p c
+    · by_cases hin : p ∈ σ.mroOf c
+      · rcases step_lazy_state σ s p hl with e | ⟨hp, e⟩ <;> rw [e]
+        obtain ⟨pre, hm, hpre⟩ := hch.suffix c p hin
+        obtain ⟨tl, htl⟩ := hch.head p hp
+        exact userFields_preparedFrom (compoundInit_preparedFrom σ p hp) hwf c pre tl hm htl hpre
+      · rw [seqOf_eq_dseq, (frame_lazy σ hwf s p hl c).2 hin, ← seqOf_eq_dseq]
+
+/-- **What every history preserves.**  Along every chain of constructor calls and
+    instantiations whatsoever — lazily preparing instantiations of the class or of its ancestors
+    included — a class that existed at the start keeps every attribute other than `field_schema`,
+    its properties, and the user-supplied members of its `field_schema`; so all a lazy
+    preparation can change is which *generated* year/month/day members the list holds. -/
+theorem frame_history_any : ∀ (ss : List Step) (σ : State), WF σ → ChainWF σ → ∀ c, c < σ.classes.length →
+    (∀ a, a ≠ .fieldSchema → deepLookup (run σ ss).1 c a = deepLookup σ c a) ∧
+    propsOf (run σ ss).1 c = propsOf σ c ∧
+    userFields (seqOf (run σ ss).1 c .fieldSchema) = userFields (seqOf σ c .fieldSchema)
+  | [], _, _, _, _, _ => ⟨fun _ _ => rfl, rfl, rfl⟩
+  | s :: ss, σ, hwf, hch, c, hc => by
+    obtain ⟨h1, h2, h3⟩ := frame_step_any σ hwf hch s c hc
+    obtain ⟨i1, i2, i3⟩ := frame_history_any ss (step σ s).1 (WF_step σ hwf s) (ChainWF_step σ hwf hch s) c
+      (Nat.lt_of_lt_of_le hc (length_step_le σ s))
+    simp only [run]
+    exact ⟨fun a ha => (i1 a ha).trans (h1 a ha), i2.trans h2, i3.trans h3⟩
+
+/-- … in the runner's terms: the observation without `field_schema` is unchanged … -/
+theorem frame_history_noFields (ss : List Step) (σ : State) (hwf : WF σ) (hch : ChainWF σ) (c : ClassId)
+    (hc : c < σ.classes.length) : observeNoFields (run σ ss).1 c = observeNoFields σ c := by
+  obtain ⟨h1, h2, _⟩ := frame_history_any ss σ hwf hch c hc
+  simp only [observeNoFields, h2]
+  congr 1
+  apply List.map_congr_left
+  intro a ha
+  exact h1 a (by simpa using (List.mem_filter.1 ha).2)
+
+/-- … and the member list the class gets when (re)prepared is the same at every point of every
+    history: the class a constructor returns behaves the same whether or not the original — or
+    anything else — was instantiated before -/
+theorem preparedOf_history (ss : List Step) (σ : State) (hwf : WF σ) (hch : ChainWF σ) (c : ClassId)
+    (hc : c < σ.classes.length) : preparedOf (run σ ss).1 c = preparedOf σ c := by
+  obtain ⟨h1, _, h3⟩ := frame_history_any ss σ hwf hch c hc
+  unfold preparedOf
+  rw [h3, optionalOf_eq, h1 .optional (by decide), ← optionalOf_eq]
+
+/-! ## the full statement over histories, its guarded form, non-vacuity -/
+
+/-- **Full statement over histories**: no chain of steps changes any observable attribute of a
+    class that existed before it.  False as it stands (KF-C06-a). -/
+def C06_Full_history : Prop :=
+  ∀ (σ : State) (ss : List Step) (c : ClassId) (a : Attr), WF σ → c < σ.classes.length →
+    deepLookup (run σ ss).1 c a = deepLookup σ c a
+
+theorem C06_full_history_fails : ¬ C06_Full_history := by
+  intro h
+  exact C06_full_fails (fun σ s c a hwf hc => by simpa only [run] using h σ [s] c a hwf hc)
+
+/-- `C06_Full_history` under the decidable guard `histGuard`: no step lazily prepares the
+    observed class or one of its ancestors -/
+theorem c06_histories_partial (σ : State) (ss : List Step) (c : ClassId) (a : Attr) (hwf : WF σ)
+    (hc : c < σ.classes.length) (hg : histGuard c σ ss = true) :
+    deepLookup (run σ ss).1 c a = deepLookup σ c a :=
+  (frame_history ss σ hwf c hc hg).1 a
+
+/-- a Sequence type: `named → using → of → instantiate with overrides → using` -/
+def chain0 : State := initState .seq [(.name, .none), (.optional, .bool false), (.memberSchema, .none)]
+
+def chainSteps : List Step :=
+  [.named 0 (some ['a']),
+   .using 1 [(.attr .optional, .bool true), (.attr .validators, .labels [1, 2]), (.properties, .pairs [(['p'], 1)])],
+   .of 2 [1],
+   .inst 3 [(.attr .optional, .bool false), (.attr .name, .str ['z'])],
+   .using 3 [(.attr .validators, .labels [7])]]
+
+theorem chain0_wf : WF chain0 := WF_of_wfB _ (by decide)
+
+/-- every call of the chain succeeds and four classes are derived -/
+example : (run chain0 chainSteps).2 = [.ok, .ok, .ok, .ok, .ok] ∧
+    (run chain0 chainSteps).1.classes.length = 5 := by decide
+
+/-- the first class (the built-in type's subclass the chain starts from) reads at the end as it
+    read at the start … -/
+example : observe (run chain0 chainSteps).1 0 = observe chain0 0 :=
+  frame_history_observe chainSteps chain0 chain0_wf 0 (by decide) (by decide)
+
+/-- … and the second class (returned by `named`) reads at the end as it read when it was returned -/
+example : observe (run chain0 chainSteps).1 1 = observe (step chain0 (.named 0 (some ['a']))).1 1 :=
+  frame_history_observe chainSteps.tail (step chain0 (.named 0 (some ['a']))).1
+    (WF_step chain0 chain0_wf _) 1 (by decide) (by decide)
+
+/-- the chain is not a no-op: the derived classes differ from the classes they came from -/
+example :
+    let τ := (run chain0 chainSteps).1
+    deepLookup τ 0 .name = .atom .none ∧ deepLookup τ 1 .name = .atom (.str ['a']) ∧
+    deepLookup τ 1 .optional = .atom (.bool false) ∧ deepLookup τ 2 .optional = .atom (.bool true) ∧
+    deepLookup τ 2 .validators = .list [.label 1, .label 2] ∧ deepLookup τ 1 .validators = .absent ∧
+    deepLookup τ 3 .memberSchema = .atom (.cls 1) ∧ deepLookup τ 2 .memberSchema = .atom .none ∧
+    deepLookup τ 4 .validators = .list [.label 7] ∧ deepLookup τ 3 .validators = .list [.label 1, .label 2] ∧
+    propsOf τ 2 = [(['p'], 1)] ∧ propsOf τ 1 = [] := by decide
+
+/-- "the returned class is new": `of` on class 2 returns class 3, a direct subclass of class 2 -/
+example : (step (run chain0 (chainSteps.take 2)).1 (.of 2 [1])).1.mroOf 3 = [3, 2, 1, 0] := by decide
+example : isCtor (.of 2 [1]) = true ∧ (step (run chain0 (chainSteps.take 2)).1 (.of 2 [1])).2 = .ok := by decide
+
+/-- the guard with a lazy preparation *in* the history: a DateYYYYMMDD-like root, two classes
+    derived from it, then the first plain instantiation of class 1 — a sibling of class 2 and a
+    child of class 0, so neither is affected -/
+def dateSteps : List Step :=
+  [.using 0 [(.attr .optional, .bool true)], .named 0 (some ['d']), .inst 1 []]
+
+example : lazyPrep (run (initState .compound []) (dateSteps.take 2)).1 (.inst 1 []) = some 1 := by decide
+example : histGuard 0 (initState .compound []) dateSteps = true := by decide
+example : observe (run (initState .compound []) dateSteps).1 0 = observe (initState .compound []) 0 :=
+  frame_history_observe dateSteps _ (WF_of_wfB _ (by decide)) 0 (by decide) (by decide)
+/-- … while class 1 itself did change (the preparation is not a no-op) -/
+example : deepLookup (run (initState .compound []) dateSteps).1 1 .fieldSchema
+    ≠ deepLookup (run (initState .compound []) (dateSteps.take 2)).1 1 .fieldSchema := by decide
+
+/-- KF-C06-a along a history: the witness chain is rejected by the guard for class 0, its
+    `field_schema` does change, and `frame_history_noFields` / `preparedOf_history` say what does not -/
+def kfSteps : List Step := [.inst 0 [], .using 0 [(.attr .optional, .bool true)], .inst 1 []]
+
+example : histGuard 0 (initState .compound []) kfSteps = false := by decide
+example : deepLookup (run (initState .compound []) kfSteps).1 0 .fieldSchema
+    ≠ deepLookup (initState .compound []) 0 .fieldSchema := by decide
+example : observeNoFields (run (initState .compound []) kfSteps).1 0 = observeNoFields (initState .compound []) 0 :=
+  frame_history_noFields kfSteps _ (WF_of_wfB _ (by decide)) (ChainWF_initState _ _) 0 (by decide)
+example : preparedOf (run (initState .compound []) kfSteps).1 0 = preparedOf (initState .compound []) 0 :=
+  preparedOf_history kfSteps _ (WF_of_wfB _ (by decide)) (ChainWF_initState _ _) 0 (by decide)
+
 end Flatland.C06.Proofs
